@@ -127,7 +127,28 @@ class CFG:
         self._exc_edge(n)
         return n
 
+    @staticmethod
+    def _value_boolop(st: ast.stmt) -> ast.stmt:
+        """`x = a or b` / `return a or b` with a plain name a is the conditional `a if a else b` (and: `b if a else a`)."""
+        v = getattr(st, "value", None)
+        if isinstance(st, (ast.Return, ast.Assign)) and isinstance(v, ast.BoolOp) and all(isinstance(x, (ast.Name, ast.Attribute)) and not any(isinstance(y, ast.Call) for y in ast.walk(x)) for x in v.values[:-1]):
+            acc = v.values[-1]
+            for x in reversed(v.values[:-1]):
+                acc = ast.copy_location(ast.IfExp(test=x, body=x, orelse=acc) if isinstance(v.op, ast.Or) else ast.IfExp(test=x, body=acc, orelse=x), v)
+            c = copy.copy(st)
+            c.value = acc
+            return c
+        return st
+
     def _stmt(self, st: ast.stmt, preds: List[Edge]) -> List[Edge]:
+        lowered = self._value_boolop(st)
+        if lowered is not st:
+            before = len(self.nodes)
+            out = self._stmt(lowered, preds)
+            for n in self.nodes[before:]:
+                if n.origin is lowered or n.origin is None:
+                    n.origin = st
+            return out
         if isinstance(st, ast.Return):
             if isinstance(st.value, ast.IfExp):
                 return self._lower_ifexp(st, preds)
